@@ -224,10 +224,127 @@ def oracle_fresh(case, obs):
     return None
 
 
+# ------------------------------------------------------------------ what the commands ask of the generators
+class _RP(SD._RandProxy):
+    def default_rng(self, *a, **k):
+        self.log.append(("default_rng", a, k, None))
+        return self._real.default_rng(*a, **k)
+
+    def normal(self, *a, **k):
+        self.log.append(("normal", a, k, None))
+        return self._real.normal(*a, **k)
+
+    def random(self, *a, **k):
+        self.log.append(("random", a, k, None))
+        return self._real.random(*a, **k)
+
+    def permutation(self, *a, **k):
+        self.log.append(("permutation", a, k, None))
+        return self._real.permutation(*a, **k)
+
+
+def gen_requests(rng, tier):
+    n = 6 if tier == "quick" else 60
+    for t in range(n):
+        yield {"seed": SEEDS[t % len(SEEDS)], "inputs": rng.randrange(2**31), "burn": rng.randint(0, 300), "via": "cli" if t % 2 else "api"}
+
+
+def _state_digest():
+    st = np.random.get_state()
+    return hashlib.sha256(repr((st[0], st[1].tobytes(), st[2], st[3], st[4])).encode()).hexdigest()
+
+
+def impl_requests(case):
+    """the requests simgenotype and simphenotype make to numpy's generators, recorded by handing the two modules a proxy of
+    `np.random`"""
+    import random as pyrandom
+
+    import haptools.sim_genotype as sg
+    import haptools.sim_phenotype as sp
+    from click.testing import CliRunner
+    from haptools.__main__ import main
+
+    d = _dir / "r"
+    C.rm_tree(d)
+    make_inputs(d, case["inputs"])
+    runs = []
+    py_before = pyrandom.getstate()
+    for k in (0, 1):
+        np.random.random(case["burn"] + 17 * k)  # two different histories
+        rp = _RP(np.random)
+        orig = sg.np
+        sg.np = SD._NPProxy(rp)
+        try:
+            if case["via"] == "cli":
+                r = CliRunner().invoke(main, ["simgenotype", "--model", str(d / "model.dat"), "--mapdir", str(d / "maps"), "--chroms", "1,2", "--seed", str(case["seed"]), "--ref_vcf", str(d / "ref.vcf.gz"), "--sample_info", str(d / "info.tab"), "--out", str(d / "q.vcf")], catch_exceptions=True)
+                if r.exit_code != 0:
+                    return {"error": "cli_exit", "msg": (str(r.exception) or r.output)[-200:]}
+            else:
+                n, pd, bps = sg.simulate_gt(str(d / "model.dat"), str(d / "maps"), ["1", "2"], None, 30, SD.silent_log(), case["seed"])
+                bps = sg.write_breakpoints(n, pd, bps, str(d / "q"), SD.silent_log())
+                sg.output_vcf(bps, ["1", "2"], str(d / "model.dat"), str(d / "ref.vcf.gz"), str(d / "info.tab"), None, False, False, False, str(d / "q.vcf"), SD.silent_log())
+        finally:
+            sg.np = orig
+        runs.append(rp.log)
+    log = runs[0]
+    seeded_first = [bool(l) and l[0][0] == "seed" and bool(l[0][1]) and l[0][1][0] is not None for l in runs]
+    first = ["nothing"] if not log else (["seed"] if all(seeded_first) else ["draw"])
+    obs = {"simgenotype_first": first, "seed_args": [sorted({repr(e[1]) for e in l if e[0] == "seed"}) for l in runs], "draws": sum(1 for e in log if e[0] != "seed"), "other_generators": [e[0] for l in runs for e in l if e[0] == "default_rng"], "python_random_untouched": pyrandom.getstate() == py_before}
+    # simphenotype
+    g_before = _state_digest()
+    rp2 = _RP(np.random)
+    orig = sp.np
+    sp.np = SD._NPProxy(rp2)
+    try:
+        if case["via"] == "cli":
+            r = CliRunner().invoke(main, ["simphenotype", "--seed", str(case["seed"]), "-r", "2", "-o", str(d / "q.pheno"), str(d / "gts.vcf"), str(d / "eff.snplist")], catch_exceptions=True)
+            if r.exit_code != 0:
+                return {"error": "cli_exit", "msg": (str(r.exception) or r.output)[-200:]}
+        else:
+            sp.simulate_pt(d / "gts.vcf", d / "eff.snplist", num_replications=2, heritability=0.5, seed=case["seed"], output=d / "q.pheno", log=SD.silent_log())
+    finally:
+        sp.np = orig
+    obs["simphenotype_global_requests"] = sum(1 for e in rp2.log if e[0] != "default_rng")
+    obs["simphenotype_private_seeds"] = [repr(e[1]) for e in rp2.log if e[0] == "default_rng"]
+    obs["global_state_unchanged_by_simphenotype"] = _state_digest() == g_before
+    return obs
+
+
+def model_req_requests(case):
+    return {"op": "seedGuard", "seed": case["seed"]}
+
+
+def model_obs_requests(case, resp):
+    return {"simgenotype_first": resp["simgenotype_first"][:1], "simphenotype_global_requests": resp["simphenotype_global_requests"]}
+
+
+def equal_requests(a, b):
+    return "error" not in a and a["simgenotype_first"] == b["simgenotype_first"] and a["simphenotype_global_requests"] == b["simphenotype_global_requests"]
+
+
+def oracle_requests(case, obs):
+    if "error" in obs:
+        return f"seeded run failed: {obs}"
+    s = case["seed"]
+    if obs["simgenotype_first"] != ["seed"]:
+        return f"simgenotype with seed {s} ({case['via']}): its first request to np.random is a draw, not a seeding: what it draws before seeding depends on what ran earlier"
+    if obs["seed_args"][0] != obs["seed_args"][1] or len(obs["seed_args"][0]) != 1:
+        return f"simgenotype with seed {s}: np.random.seed was called with {obs['seed_args'][0]} in one run and {obs['seed_args'][1]} in the next"
+    if obs["draws"] == 0:
+        return "simgenotype drew nothing from np.random although it simulated recombination (randomness taken from elsewhere?)"
+    if obs["other_generators"] or not obs["python_random_untouched"]:
+        return f"simgenotype with seed {s} uses a generator the seed does not reach ({obs['other_generators']}, python random untouched: {obs['python_random_untouched']})"
+    if len(obs["simphenotype_private_seeds"]) != 1 or "None" in obs["simphenotype_private_seeds"][0] or obs["simphenotype_private_seeds"][0] == "()":
+        return f"simphenotype with seed {s}: private generators created with {obs['simphenotype_private_seeds']}"
+    if obs["simphenotype_global_requests"] != 0 or not obs["global_state_unchanged_by_simphenotype"]:
+        return f"simphenotype with seed {s} uses the process-wide generator ({obs['simphenotype_global_requests']} requests; state unchanged: {obs['global_state_unchanged_by_simphenotype']})"
+    return None
+
+
 CHECK = Check(
     id="C10",
     title="A seed makes simgenotype and simphenotype reproducible",
-    theorems=["C10.simgenotype_seeded_independent_of_history", "C10.simphenotype_seeded_deterministic", "C10.replications_distinct_stream_positions", "C10.seed_zero_refuted_before_fix"],
+    theorems=["C10.simgenotype_seeded_independent_of_history", "C10.simphenotype_seeded_deterministic", "C10.replications_distinct_stream_positions", "C10.seed_zero_refuted_before_fix", "C10.seeded_adaptive_run_independent_of_history", "C10.seeded_adaptive_run_is_body_from_seed", "C10.simphenotype_leaves_global_generator_alone", "C10.seed_zero_adaptive_witness"],
     sections=[
         Section(
             name="same_process_histories",
@@ -252,6 +369,21 @@ CHECK = Check(
             nontrivial=lambda c, o: C.jdump(c),
             describe=lambda c, o: [f"seed={c['seed']}"] + (["sample-info-names-samples-twice"] if c.get("dup_info") else []),
             rule="simgenotype and simphenotype (with an --id subset of a .snplist) through the CLI in three fresh interpreter processes per case with different PYTHONHASHSEED values and different prior use of the global generator; in half of the cases the sample-info file names some reference samples twice; .bp, VCF content and .pheno must be identical",
+        ),
+        Section(
+            name="generator_requests",
+            theorems=["C10.seeded_adaptive_run_independent_of_history", "C10.seeded_adaptive_run_is_body_from_seed", "C10.simphenotype_leaves_global_generator_alone", "C10.seed_zero_adaptive_witness"],
+            gen=gen_requests,
+            impl=impl_requests,
+            model_req=model_req_requests,
+            model_obs=model_obs_requests,
+            equal=equal_requests,
+            oracle=oracle_requests,
+            setup=setup,
+            teardown=teardown,
+            nontrivial=lambda c, o: C.jdump(c),
+            describe=lambda c, o: [f"seed={c['seed']}", c["via"]],
+            rule="the hypothesis of the adaptive theorem, observed: `haptools.sim_genotype` and `haptools.sim_phenotype` are handed a recording proxy of np.random while the seeded command runs (API and click runner, seeds 0, 1, 7, 2^32-1, 12345, arbitrary prior use of the global generator): simgenotype's first request must be a seeding (with the same argument after two different histories), everything else it draws comes from np.random, no other generator is created and Python's `random` is untouched; simphenotype creates one private generator from a seed, asks nothing of the process-wide generator and leaves its state as it was",
         ),
     ],
     trusted=["numpy's generators are deterministic functions of their seed", "pysam reading of the compared VCFs"],
